@@ -8,7 +8,8 @@ main.py:224-270         the per-packet classification in run() `classify`, `step
 main.py:102-123         handle_packet                          `tlsHandle`
 session.py:217-237      set_client_and_server_ports            `rolesOf`          (same code: quic_session.py:337-360)
 session.py:239-251      matches_session                        `TlsSess.matches`  (same code: quic_session.py:362-372)
-main.py:126-182         handle_quic_packet                     `parseHeader`, `cidMatch`, `quicTake`, `quicHandleH`, `quicHandle`
+main.py:126-189         handle_quic_packet                     `parseHeader`, `Sess.side`, `shortCandidates`, `cidMatch`, `quicTake`,
+                                                               `quicHandleH`, `quicHandle` (`Legacy.*`: before the receiver-side rule)
 quic_dissector.py:23-27 get_header_type                        first branch of `parseHeader1`
 main.py:273-277         final concatenation                    `exportAll`
 main.py:189-192         reset at the top of run()              `reset` (flags/literal regenerated: `Gen/MainLoopConsts.lean`)
@@ -193,12 +194,37 @@ def cidPrefixOf (payload cid : Bytes) : Bool :=
 def shortPick (cids : List Bytes) (payload : Bytes) : Option Bytes :=
   (sortCids cids).find? (cidPrefixOf payload)
 
+/-- where a datagram stands relative to a session's address pair -/
+inductive Side
+  | offTuple       -- `matches_session_dgram` is False
+  | fromClient     -- on the 4-tuple, `packet.ip_src == session.client_ip and packet.sport == session.client_port`
+  | fromServer     -- on the 4-tuple, otherwise
+  deriving DecidableEq, Repr
+
+def Sess.side {α : Type} (s : Sess α) (p : Pkt) : Side :=
+  if s.matches p then (if p.src == s.client then .fromClient else .fromServer) else .offTuple
+
+/-- the CIDs a short-header datagram is compared with: on the session's own address pair only those chosen by the
+    datagram's receiver (`server_cids` for a datagram from the client, `client_cids` for one from the server); on any
+    other address pair (migration) `client_cids | server_cids` -/
+def shortCandidates (cc sc : List Bytes) : Side → List Bytes
+  | .offTuple => cc ++ sc
+  | .fromClient => sc
+  | .fromServer => cc
+
 /-- the "first try matching connection IDs" part for one session; `some cid`: matched, `cid` is what `handle_packet` gets.
     `cc`, `sc`: the session's `client_cids`, `server_cids` in any order. -/
-def cidMatch (cc sc : List Bytes) (h : Hdr) (payload : Bytes) : Option Bytes :=
+def cidMatch (cc sc : List Bytes) (side : Side) (h : Hdr) (payload : Bytes) : Option Bytes :=
   match h with
   | .long dcid _ => if 0 < dcid.length ∧ (dcid ∈ cc ∨ dcid ∈ sc) then some dcid else none
-  | .short => shortPick (cc ++ sc) payload          -- `client_cids | server_cids`
+  | .short => shortPick (shortCandidates cc sc side) payload
+  | .tooShort => none
+
+/-- the rule before the receiver-side restriction: every CID of the session is a candidate, whatever the direction -/
+def Legacy.cidMatch (cc sc : List Bytes) (h : Hdr) (payload : Bytes) : Option Bytes :=
+  match h with
+  | .long dcid _ => if 0 < dcid.length ∧ (dcid ∈ cc ∨ dcid ∈ sc) then some dcid else none
+  | .short => shortPick (cc ++ sc) payload
   | .tooShort => none
 
 section Quic
@@ -207,7 +233,13 @@ variable {κ τ ο : Type}
 /-- one iteration of `for session in quic_sessions`: CID match first, then the 4-tuple of THIS session, before the next
     session is looked at. `some cid`: this session takes the packet, `handle_packet(packet, cid, version)`. -/
 def quicTake (M : QuicMachine κ τ ο) (h : Hdr) (p : Pkt) (s : QuicSess τ) : Option Bytes :=
-  match cidMatch (M.clientCids s.st) (M.serverCids s.st) h p.payload with
+  match cidMatch (M.clientCids s.st) (M.serverCids s.st) (s.side p) h p.payload with
+  | some c => some c
+  | none => if s.matches p then some h.dcid else none
+
+/-- `quicTake` under the old candidate rule -/
+def Legacy.quicTake (M : QuicMachine κ τ ο) (h : Hdr) (p : Pkt) (s : QuicSess τ) : Option Bytes :=
+  match Legacy.cidMatch (M.clientCids s.st) (M.serverCids s.st) h p.payload with
   | some c => some c
   | none => if s.matches p then some h.dcid else none
 
